@@ -22,7 +22,7 @@ META = {
     "stubs": ["np.exp / np.log / ** with non-integer exponent -> Ackermannised functions with congruence, strict monotonicity, inverse-pair and reciprocal axiom instances; applications at rational points are enclosed by mpmath intervals"],
     "assumptions": ["REAL mode: literals read as exact rationals", "bit-for-bit agreement of the two copies is established as identity of the EUF shadow terms: same uninterpreted operations on the same operands in the same order (no constant folding), on every path"],
 }
-LEDGER = {"quick": 3000, "thorough": 3000}
+LEDGER = {"quick": 3190, "thorough": 3190}
 
 
 def _fns(which):
@@ -304,7 +304,43 @@ def replay(v):
                 if np.any(r > 1 + 3e-7):
                     k = int(np.argmax(r))
                     return {"reproduced": True, "key": "standard atmosphere: upward pressure step larger than 3e-7", "detail": f"P({zs[k]})={Ps[k]} -> P({zs[k+1]})={Ps[k+1]}"}
-    return {"reproduced": False, "key": None, "detail": "real code satisfies the predicate at the model point"}
+        # the claims about the layer constants / limits do not depend on the model point: probe the real
+        # functions ON and NEXT TO the seven layer boundaries and at the limits
+        from nuspacesim import constants as const
+
+        R = float(const.earth_radius)
+        Hb = [float(x) for x in np.asarray(mod.H_b)[1:-1]]
+        if "limits" in job or "zero pressure" in ob or "infinite altitude" in ob:
+            p_inf = float(mod.us_std_atm_pressure_from_altitude(np.inf))
+            z_0 = float(mod.us_std_atm_altitude_from_pressure(0.0))
+            if p_inf != 0.0:
+                return {"reproduced": True, "key": "standard atmosphere: infinite altitude does not map to zero pressure", "detail": f"P(inf) = {p_inf}"}
+            if z_0 != np.inf:
+                return {"reproduced": True, "key": "standard atmosphere: zero pressure does not map to infinite altitude", "detail": f"z(0) = {z_0}"}
+        for H in Hb:
+            zb = R * H / (R - H)
+            near = [zb]
+            for _ in range(3):
+                near = [np.nextafter(near[0], -np.inf)] + near + [np.nextafter(near[-1], np.inf)]
+            near = np.array(sorted(set(near + [zb - 1e-7, zb - 1e-5, zb - 1e-4, zb - 2e-4, zb + 1e-7, zb + 1e-5])))
+            Ps = mod.us_std_atm_pressure_from_altitude(near)
+            if np.any(~(Ps > 0)):
+                return {"reproduced": True, "key": "standard atmosphere: non-positive pressure", "detail": f"near boundary z={zb}: {Ps.tolist()}"}
+            up = Ps[1:] / Ps[:-1]
+            if np.any(up > 1 + 3e-7):
+                k = int(np.argmax(up))
+                return {"reproduced": True, "key": "standard atmosphere: upward pressure step larger than 3e-7 at a layer boundary",
+                        "detail": f"geopotential boundary {H} km' (z = {zb} km): P({near[k]!r}) = {Ps[k]!r} -> P({near[k+1]!r}) = {Ps[k+1]!r} (relative step {up[k]-1:.3g})"}
+            back = mod.us_std_atm_altitude_from_pressure(Ps)
+            err = np.abs(back - near)
+            if np.any(err > 1e-6):
+                k = int(np.argmax(err))
+                return {"reproduced": True, "key": "standard atmosphere: altitude round trip off by more than 1e-6 km next to a layer boundary",
+                        "detail": f"boundary {H} km': z = {near[k]!r} -> P = {Ps[k]!r} -> z = {back[k]!r} (error {err[k]:.3g} km)"}
+    return {"reproduced": False, "key": None, "detail": "real code satisfies the predicate at the model point, at the limits and next to the layer boundaries"}
+
+
+VALIDATE_JOB = "atmosphere: pressure_from_altitude"
 
 
 def validate(seed, tier):
